@@ -4,6 +4,7 @@
    state view?  Instead of asking an oracle it advances, event by event, the SET of all states (cursor, rest of the
    observation) reachable along any arm of any branch; a state whose next expected access differs from the observation is
    dropped, equal states are merged (the rest is always a suffix of the one observation, so its length identifies it).
+   (A pushed or popped set keeps its `closed` marks: the same event is applied to every state of the set.)
    The observation is in the hook's vocabulary: KGet = get_state, KSet = get_state_mut (one per SetState, two per Mem),
    KDelay = ring buffer; every event carries the length of the storage it touched, which must be the size of the skeleton
    of the function that owns the storage (vm.rs execute_idx / Closure::new resize the storage to total_size()).
@@ -18,7 +19,12 @@ Import ListNotations.
 Local Open Scope N_scope.
 
 Definition obs : Type := (access * N)%type.             (* the access and the length of the storage it touched *)
-Definition st : Type := (N * list obs)%type.            (* cursor, rest of the observation *)
+(* cursor, rest of the observation, closed: every state a closure call can lead to from here (same cursor, shorter rest) is
+   already in the set this state belongs to — so the next EOther need not search again *)
+Definition st : Type := (N * list obs * bool)%type.
+Definition cur_of (x : st) : N := fst (fst x).
+Definition tr_of (x : st) : list obs := snd (fst x).
+Definition closed_of (x : st) : bool := snd x.
 
 Definition akind_eqb (a b : akind) : bool :=
   match a, b with
@@ -30,9 +36,12 @@ Definition acc_eqb (a b : access) : bool :=
   akind_eqb (a_kind a) (a_kind b) && N.eqb (a_pos a) (a_pos b) && N.eqb (a_size a) (a_size b).
 
 Definition tr_eqb (x y : list obs) : bool := Nat.eqb (length x) (length y).
-Definition st_eqb (x y : st) : bool := N.eqb (fst x) (fst y) && tr_eqb (snd x) (snd y).
+Definition st_eqb (x y : st) : bool := N.eqb (cur_of x) (cur_of y) && tr_eqb (tr_of x) (tr_of y).
 
-Definition add_st (x : st) (l : list st) : list st := if existsb (st_eqb x) l then l else x :: l.
+Definition add_st (x : st) (l : list st) : list st :=
+  if existsb (st_eqb x) l
+  then (if closed_of x then map (fun y : st => if st_eqb x y then (fst y, true) else y) l else l)
+  else x :: l.
 Definition union_st (l1 l2 : list st) : list st := fold_right add_st l2 l1.
 Definition dedupe_st (l : list st) : list st := union_st l [].
 
@@ -42,15 +51,17 @@ Definition dedupe_tr (l : list (list obs)) : list (list obs) := fold_right add_t
 (* the states that survive access a on a storage of length slen *)
 Definition expect (mk : N -> access) (slen : N) (S : list st) : list st :=
   dedupe_st (flat_map (fun x : st =>
-                         match snd x with
-                         | (y, l) :: r => if acc_eqb (mk (fst x)) y && N.eqb l slen then [(fst x, r)] else []
+                         match tr_of x with
+                         | (y, l) :: r => if acc_eqb (mk (cur_of x)) y && N.eqb l slen then [(cur_of x, r, false)] else []
                          | [] => []
                          end) S).
 
+Definition RDEPTH : nat := 8.
+
 Section FollowEvs.
   Variable p : prog.
-  (* `rec cdepth f evs slen S` = (states that fell through, states that returned) *)
-  Variable rec : nat -> func -> list ev -> N -> list st -> list st * list st.
+  (* `rec cdepth stk f evs slen S` = (states that fell through, states that returned); stk = the functions being called *)
+  Variable rec : nat -> list nat -> func -> list ev -> N -> list st -> list st * list st.
 
   (* one complete call, on its own storage, of some stateful function: the rests of the observation it can leave *)
   Definition runs (cdepth : nat) (t : list obs) : list (list obs) :=
@@ -59,9 +70,9 @@ Section FollowEvs.
         flat_map (fun g => if stateful (f_skel g) && N.eqb (size (f_skel g)) l
                            then match block g 0 with
                                 | Some b0 =>
-                                    flat_map (fun x : st => if N.eqb (fst x) 0 && Nat.ltb (length (snd x)) (length t)
-                                                            then [snd x] else [])
-                                             (snd (rec cd g b0 l [(0, t)]))
+                                    flat_map (fun x : st => if N.eqb (cur_of x) 0 && Nat.ltb (length (tr_of x)) (length t)
+                                                            then [tr_of x] else [])
+                                             (snd (rec cd [] g b0 l [(0, t, false)]))
                                 | None => []
                                 end
                            else []) p
@@ -80,39 +91,49 @@ Section FollowEvs.
     end.
 
   Definition star (cdepth : nat) (S : list st) : list st :=
-    dedupe_st (flat_map (fun x : st => map (fun t => (fst x, t)) (reach (Datatypes.S (length (snd x))) cdepth [snd x] [snd x])) S).
+    dedupe_st (flat_map (fun x : st =>
+                           if closed_of x then [x]
+                           else map (fun t => (cur_of x, t, true))
+                                    (reach (Datatypes.S (length (tr_of x))) cdepth [tr_of x] [tr_of x])) S).
 
-  Fixpoint follow_evs (cdepth : nat) (f : func) (evs : list ev) (slen : N) (S : list st) : list st * list st :=
+  Fixpoint follow_evs (cdepth : nat) (stk : list nat) (f : func) (evs : list ev) (slen : N) (S : list st)
+    : list st * list st :=
     match evs with
     | [] => (S, [])
     | e :: rest =>
       match e with
-      | EPush n => follow_evs cdepth f rest slen (map (fun x : st => (fst x + n, snd x)) S)
+      | EPush n => follow_evs cdepth stk f rest slen (map (fun x : st => (cur_of x + n, tr_of x, closed_of x)) S)
       | EPop n =>
-          follow_evs cdepth f rest slen (flat_map (fun x : st => if fst x <? n then [] else [(fst x - n, snd x)]) S)
-      | EGet w => follow_evs cdepth f rest slen (expect (fun c => {| a_kind := KGet; a_pos := c; a_size := w |}) slen S)
+          follow_evs cdepth stk f rest slen
+                     (flat_map (fun x : st => if cur_of x <? n then [] else [(cur_of x - n, tr_of x, closed_of x)]) S)
+      | EGet w => follow_evs cdepth stk f rest slen (expect (fun c => {| a_kind := KGet; a_pos := c; a_size := w |}) slen S)
       | ERetFeed w =>
           (* bytecodegen: SetState, preceded by a GetState of the same cell in SelfEvalMode::ZeroAtInit *)
           let set := fun c => {| a_kind := KSet; a_pos := c; a_size := w |} in
           let get := fun c => {| a_kind := KGet; a_pos := c; a_size := w |} in
           ([], union_st (expect set slen S) (expect set slen (expect get slen S)))
       | EDelay len =>
-          follow_evs cdepth f rest slen
+          follow_evs cdepth stk f rest slen
                      (expect (fun c => {| a_kind := KDelay; a_pos := c; a_size := len + RING_HEADER |}) slen S)
       | EMem =>
           (* vm.rs Instruction::Mem: get_state_mut(1) to read, get_state_mut(1) to write: the hook sees two KSet events *)
           let set := fun c => {| a_kind := KSet; a_pos := c; a_size := 1 |} in
-          follow_evs cdepth f rest slen (expect set slen (expect set slen S))
+          follow_evs cdepth stk f rest slen (expect set slen (expect set slen S))
       | ECall idx =>
           match nth_error p idx with
           | Some g =>
               match block g 0 with
-              | Some b0 => follow_evs cdepth f rest slen (snd (rec cdepth g b0 slen S))     (* a callee must return *)
+              | Some b0 =>
+                  (* a function without state that is already RDEPTH times on the call stack (unbounded recursion in the
+                     view: the data that ends it is not modelled) is taken to return without touching anything *)
+                  if negb (stateful (f_skel g)) && Nat.leb RDEPTH (count_occ Nat.eq_dec stk idx)
+                  then follow_evs cdepth stk f rest slen S
+                  else follow_evs cdepth stk f rest slen (snd (rec cdepth (idx :: stk) g b0 slen S))   (* a callee must return *)
               | None => ([], [])
               end
           | None => ([], [])
           end
-      | EOther => follow_evs cdepth f rest slen (star cdepth S)
+      | EOther => follow_evs cdepth stk f rest slen (star cdepth S)
       | EBranch arms m =>
           match block f m with
           | Some mb =>
@@ -121,12 +142,12 @@ Section FollowEvs.
                   (fun a (acc : list st * list st) =>
                      match block f a with
                      | Some ab =>
-                         let r1 := rec cdepth f ab slen S in
-                         let r2 := rec cdepth f mb slen (fst r1) in
+                         let r1 := rec cdepth stk f ab slen S in
+                         let r2 := rec cdepth stk f mb slen (fst r1) in
                          (union_st (fst r2) (fst acc), union_st (snd r1) (union_st (snd r2) (snd acc)))
                      | None => acc
                      end) ([], []) arms in
-              let r3 := follow_evs cdepth f rest slen (fst fr) in
+              let r3 := follow_evs cdepth stk f rest slen (fst fr) in
               (fst r3, union_st (snd fr) (snd r3))
           | None => ([], [])
           end
@@ -136,11 +157,11 @@ Section FollowEvs.
     end.
 End FollowEvs.
 
-Fixpoint follow (fuel : nat) (p : prog) (cdepth : nat) (f : func) (evs : list ev) (slen : N) (S : list st)
+Fixpoint follow (fuel : nat) (p : prog) (cdepth : nat) (stk : list nat) (f : func) (evs : list ev) (slen : N) (S : list st)
   : list st * list st :=
   match fuel with
   | O => ([], [])
-  | S k => follow_evs p (follow k p) cdepth f evs slen S
+  | S k => follow_evs p (follow k p) cdepth stk f evs slen S
   end.
 
 (* the observed trace tr is exactly one call of f entered at cursor `entry` of a storage sized from f's skeleton and
@@ -148,7 +169,7 @@ Fixpoint follow (fuel : nat) (p : prog) (cdepth : nat) (f : func) (evs : list ev
 Definition accepts_trace (fuel : nat) (p : prog) (cdepth : nat) (f : func) (entry : N) (tr : list obs) : bool :=
   match block f 0 with
   | Some b0 =>
-      existsb (fun x : st => N.eqb (fst x) entry && match snd x with [] => true | _ => false end)
-              (snd (follow fuel p cdepth f b0 (size (f_skel f)) [(entry, tr)]))
+      existsb (fun x : st => N.eqb (cur_of x) entry && match tr_of x with [] => true | _ => false end)
+              (snd (follow fuel p cdepth [] f b0 (size (f_skel f)) [(entry, tr, false)]))
   | None => false
   end.
